@@ -554,6 +554,56 @@ pub fn run(ctx: &'static Ctx) {
     }
     ctx.engine("E1.option-closures", json!(rep));
 
+    // FADT: every ordered pair (and every triple flag / builder / flag) of builder operations: a flag option changes its
+    // own bit only, and what another builder stores does not depend on the flags already set
+    {
+        use crate::tables::Table;
+        let t = fixed::Fadt;
+        let c = Ctor::new(2, 0, 2);
+        let al = t.alphabet(&c, &[], 1);
+        let judge = |ops: &[Op]| {
+            ctx.tr(ops.len() as u64);
+            let mut img = vec![];
+            match catch(|| t.run(&c, ops, &mut |k, live, _| if k == ops.len() { img = ser(live) })) {
+                Err(m) => {
+                    ctx.violation_sized("opt:fadt:pair:panic", ops.len() as u64, || format!("FADT builder sequence {:?} panicked: {}", ops.iter().map(|o| t.kinds()[o.k as usize]).collect::<Vec<_>>(), m), || crate::seq::replay_json(&t, &c, ops));
+                }
+                Ok(()) => {
+                    let want = t.reference(&c, ops).image;
+                    if !crate::tables::eq_judged(&t, ops, &img, &want) {
+                        let names: Vec<&str> = ops.iter().map(|o| t.kinds()[o.k as usize]).collect();
+                        ctx.violation_sized(
+                            &format!("opt:fadt:pair:{}", names.last().copied().unwrap_or("new")),
+                            ops.len() as u64,
+                            || format!("FADT after {:?}: image differs from the specification at {:?}", names, first_diff(&img, &want)),
+                            || crate::seq::replay_json(&t, &c, ops),
+                        );
+                    }
+                }
+            }
+        };
+        let mut n = 0u64;
+        for a in &al {
+            for b in &al {
+                judge(&[*a, *b]);
+                n += 1;
+            }
+        }
+        // flag, builder, another flag (flags = the operations of the first kind in the alphabet's flag group)
+        let flags: Vec<Op> = al.iter().filter(|o| t.kinds()[o.k as usize].contains("flag")).cloned().collect();
+        let others: Vec<Op> = al.iter().filter(|o| !t.kinds()[o.k as usize].contains("flag")).cloned().collect();
+        for f1 in flags.iter().step_by(2) {
+            for b in &others {
+                for f2 in flags.iter().skip(1).step_by(3) {
+                    judge(&[*f1, *b, *f2]);
+                    n += 1;
+                }
+            }
+        }
+        ctx.st(n);
+        ctx.engine("E2.fadt-builder-pairs", json!({"operations": al.len(), "flag_operations": flags.len(), "sequences": n}));
+    }
+
     // constructor-valued enable states and booleans: all tuples (MADT enable states, RIMT booleans, HEST firmware-first / GLOBAL)
     let mut tuples = 0u64;
     {
